@@ -237,7 +237,7 @@ func ordName(key bool) string {
 func main() {
 	o := vhlib.ParseOpts()
 	rng := vhlib.NewRng(o.Seed)
-	w := vhlib.NewWriter(o.Out, "From VF Require Import C10.Model C10.SortModel C10.Spec C10.Check.\nLocal Open Scope Z_scope.", "case", "mismatches", 150)
+	w := vhlib.NewWriter(o.Out, "From VF Require Import C10.Model C10.SortModel C10.Spec C10.CmpSel C10.Check.\nLocal Open Scope Z_scope.", "case", "mismatches", 150)
 	thorough := o.Thorough()
 
 	// ---------- 0. zsortordered.go must be zsortfunc.go with less(x, y) replaced by x < y ----------
@@ -453,6 +453,7 @@ func main() {
 
 	// ---------- 2. searches and predicates ----------
 	doSearches(rng, thorough)
+	doCmpShapes(rng, thorough, w) // user comparisons of non-unit magnitude, asymmetric predicates, recorded calls
 	doComparePairs(rng, thorough) // prefixes with every length difference, both directions; through the wrappers too
 	// ---------- 3. comparators ----------
 	doComparators(rng, thorough)
@@ -491,7 +492,7 @@ func main() {
 			w.Case(c.term, c.label, c.nontrivial, nil, c.replay)
 		}
 	}
-	w.Close(o, "one case = one call of a comparator / sort / search of the anchored files on a generated input (14 slice generators incl. sorted, reversed, few-distinct, organ-pipe, nearly-sorted, duplicate blocks, two runs, plus a targeted family: McIlroy-style adversaries (candidate rule with a pre-frozen sample, first-argument, second-argument and randomised freezing) run once per run against the real SortFunc, sizes 50..2000, whose killer VALUES are replayed through Sort on int64 / int / int32 / float64 / string, SortFunc, SortStableFunc and the BSlice methods, together with one input per remaining pdqsort branch (partitionEqual, partialInsertionSort true/false, reverseRange); the branches the model-replayed ones take are counted in Coq (notes.model_branches, heapsort_fallback_cases) and a run in which a required branch is not reached reports a kind-1 coverage case, ascending/descending inputs of length 50..300 with one or two displaced elements at every small offset and near the end (Sort, SortFunc, Ordered wrappers), every permutation of sizes 0..6 (distinct keys and ties) through GetSortedValues on arraylist / linkedhashset / treeset / hashset / doublylinkedlist, the lists' Sort, bcomparator.Sort and SortComparator, and every sort entry point (SortFunc, SortStableFunc, SortComparator and their ToSlice / ToBSlice variants, Sort) of all eight bslice wrapper flavours on tagged pairs with many ties, the Stable ones judged for stability; lengths 0..300 quick / 0..2000 thorough through the Coq model with the less-call sequence compared by count and rolling hash, up to 2*10^4 / 10^5 through the verified output checker only; comparators on type extremes and random pairs); distinct = distinct case terms; non-trivial = length >= 2 for slices, any comparator pair")
+	w.Close(o, "one case = one call of a comparator / sort / search of the anchored files on a generated input (14 slice generators incl. sorted, reversed, few-distinct, organ-pipe, nearly-sorted, duplicate blocks, two runs, plus a targeted family: McIlroy-style adversaries (candidate rule with a pre-frozen sample, first-argument, second-argument and randomised freezing) run once per run against the real SortFunc, sizes 50..2000, whose killer VALUES are replayed through Sort on int64 / int / int32 / float64 / string, SortFunc, SortStableFunc and the BSlice methods, together with one input per remaining pdqsort branch (partitionEqual, partialInsertionSort true/false, reverseRange); the branches the model-replayed ones take are counted in Coq (notes.model_branches, heapsort_fallback_cases) and a run in which a required branch is not reached reports a kind-1 coverage case, ascending/descending inputs of length 50..300 with one or two displaced elements at every small offset and near the end (Sort, SortFunc, Ordered wrappers), every permutation of sizes 0..6 (distinct keys and ties) through GetSortedValues on arraylist / linkedhashset / treeset / hashset / doublylinkedlist, the lists' Sort, bcomparator.Sort and SortComparator, and every sort entry point (SortFunc, SortStableFunc, SortComparator and their ToSlice / ToBSlice variants, Sort) of all eight bslice wrapper flavours on tagged pairs with many ties, the Stable ones judged for stability; lengths 0..300 quick / 0..2000 thorough through the Coq model with the less-call sequence compared by count and rolling hash, up to 2*10^4 / 10^5 through the verified output checker only; comparators on type extremes and random pairs; CompareFunc / EqualFunc / BinarySearchFunc (package functions and the method of every bslice wrapper flavour), ReverseComparator and the comparator-taking sorts driven with comparison functions of six shapes (unit, a-b, b-a, 10*sign, (b-a)*1000003, clamped) and five predicates (three asymmetric), the (first, second) arguments of every call recorded and judged); distinct = distinct case terms; non-trivial = length >= 2 for slices, any comparator pair")
 }
 
 // diffOrdered: transform zsortfunc.go textually into what zsortordered.go must be and compare
